@@ -41,3 +41,9 @@ PROBES = list(PROBES) + ["orphan:plan-outlives-its-reader", "orphan:copy-of-the-
 RULE = RULE + (" Round 9: 12% of plans are made on a reader that nothing but the plan refers to (or after a shallow copy of the reader was dropped); 2% of runs place short plans "
                "on multi-gigabyte SPARSE file sets (byte offsets beyond 2^31 / 2^32; functional model); header keys in another order / optional keys in a third of the sets; "
                "observations reached through symbolic links; library tuning constants lowered in a quarter of the runs.")
+
+# dimensions added in seeded round 10
+PROBES = list(PROBES) + ["K5:every-next-in-a-new-thread", "K5:first-here-rest-in-one-worker", "K5:made-in-a-worker-consumed-here"]
+RULE = RULE + (" Round 10: consumer K5 - 8% of plans are handed from thread to thread (each next() in a new thread / first block here, the rest in one worker / made in a worker, "
+               "consumed here), every call joined before the next: no concurrency, only the identity of the calling thread varies. A fifth of the small file sets first hold an "
+               "earlier recording of the same byte size with a longer header at the same paths (opened, read, dropped).")
